@@ -28,8 +28,16 @@ BaseOf(name) == Trace[CHOOSE i \in BaseIdx : Trace[i].base = name]
 
 MetaFields == {"Name", "ID", "TenantID", "Branches", "URL", "CommitURLTemplate", "FileURLTemplate",
                "LineFragmentTemplate", "RawConfig", "Metadata", "HasSymbols"}
-MetaDiff(ma, mb) == IF Len(ma) = 1 /\ Len(mb) = 1 THEN {f \in MetaFields : ma[1][f] # mb[1][f]}
-                    ELSE IF ma = mb THEN {} ELSE {"(several metadata records)"}
+\* ma = metadata of the index that stays, mb = metadata of an index built from the request.
+\* RawConfig and Metadata are key/value maps a request may describe partially (MergeMutable
+\* only looks at the request's keys; index/builder_test.go TestIncrementalSkipIndexing expects
+\* "equal" for a request without any RawConfig): every pair of the request must be there.
+SubsetFields == {"RawConfig", "Metadata"}
+MetaDiff(ma, mb) ==
+  IF Len(ma) = 1 /\ Len(mb) = 1
+  THEN {f \in MetaFields \ SubsetFields : ma[1][f] # mb[1][f]}
+       \cup {f \in SubsetFields : ~(ToSet(mb[1][f]) \subseteq ToSet(ma[1][f]))}
+  ELSE IF ma = mb THEN {} ELSE {"(several metadata records)"}
 
 \* ---------------------------------------------------------------- builder model against the view
 DocOf(name) == Corpus[CHOOSE i \in DOMAIN Corpus : Corpus[i].n = name]
